@@ -120,7 +120,7 @@ def check(prog, rep):
                f"{'removed from' if removed else 'NOT removed from'} {miss}: a ligand atom is both written and reported unassigned",
                f"pdb2pqr/main.py:{c.lineno} (non_trivial)")
 
-    miss_app = [c for c in calls_in(nt) if U(c.func) == f"{miss}.append"]
+    miss_app = [] if block_modelled else [c for c in calls_in(nt) if U(c.func) == f"{miss}.append"]  # shape fallback; R15 decides it on the model complex
     for c in miss_app:
         g = " and ".join(U(tst) for tst, p in guards_of(c) if p)
         ok = f"not in {miss}" in g and f"not in {hit}" in g
